@@ -125,7 +125,7 @@ fn cmd_sys(kv: &HashMap<String, String>) -> i32 {
     let replay_dir = kv.get("replays").cloned().unwrap_or_else(|| format!("/verif/replays/{}", prop));
     let threads: usize = kv.get("threads").and_then(|s| s.parse().ok()).unwrap_or(12);
     let corpus = kv.get("corpus").cloned();
-    let _ = std::fs::remove_dir_all(&replay_dir);
+    // stale replays are removed by tools/check before the engines of a run start
     std::fs::create_dir_all(&replay_dir).ok();
     let mask = scen::mask_for(&prop);
 
